@@ -214,7 +214,7 @@ theorem decnumCore_render (s : Sci) (h : WFb isDig s) :
     matchExp_render 'e' s.ex h.ex_digits, splitDot_render s.ip s.fp hdot, sciEval, Bool.and_true]
 
 theorem hexnumCore_render (s : Sci) (h : WFb isHex s) :
-    hexnumCore (s.render ['0', 'x'] 'p') = sciEval 16 2 false s := by
+    hexnumCore (s.render ['0', 'x'] 'p') = sciEval 16 2 true s := by
   unfold hexnumCore matchHex Sci.render
   have hms : matchSign (s.sign.chars ++ '0' :: 'x' :: (s.ip ++ (fracChars s.fp ++ expChars 'p' s.ex))) =
       (signOpt s.sign, '0' :: 'x' :: (s.ip ++ (fracChars s.fp ++ expChars 'p' s.ex))) :=
@@ -224,7 +224,7 @@ theorem hexnumCore_render (s : Sci) (h : WFb isHex s) :
   simp only [List.cons_append, List.nil_append, hms,
     matchMant_render isHex (by decide) s.ip s.fp _ h.ip_digits h.fp_digits h.ip_or_fp
       (stop_expChars isHex 'p' (by decide) s.ex) (head_expChars 'p' (by decide) s.ex),
-    matchExp_render 'p' s.ex h.ex_digits, splitDot_render s.ip s.fp hdot, sciEval, Bool.and_false, Bool.false_eq_true, ↓reduceIte]
+    matchExp_render 'p' s.ex h.ex_digits, splitDot_render s.ip s.fp hdot, sciEval, Bool.and_true]
 
 /-! ### values -/
 
@@ -729,32 +729,5 @@ theorem digitPart_all (p : Char → Bool) (cs : List Char) (h : ∀ c ∈ cs, p 
   rw [digitPartAux_all p cs h (cs.length + 1) [] (by omega)]
   simp
 
-/-- a plain decimal integer token (no underscores, no leading zero unless it is all zeros, within
-the tokenizer's 4300-digit limit) is the integer it spells -/
-theorem pyNumber_decint (ds : List Char) (hne : ds ≠ []) (hd : ∀ c ∈ ds, IsDigit 10 c)
-    (hlz : ¬ (ds.head? = some '0' ∧ ∃ c ∈ ds, c ≠ '0')) (hlim : ds.length ≤ maxStrDigits) :
-    pyNumber ds = .ok (.int (intVal 10 ds)) := by
-  have hdig : ∀ c ∈ ds, isDig c = true := fun c hc => (isDig_iff c).2 (hd c hc)
-  have hx : ∀ c, c ∈ ['x', 'X', 'o', 'O', 'b', 'B'] → ¬ IsDigit 10 c := by
-    unfold IsDigit; decide
-  have hh : horner 10 ds = intVal 10 ds := by
-    unfold horner
-    rw [horner_eq 10 ds (fun c hc => isDigit_10_16 (hd c hc)) 0]; simp
-  have hany : (ds.head? == some '0' && ds.any (· != '0')) = false := by
-    cases hb : (ds.head? == some '0' && ds.any (· != '0')) with
-    | false => rfl
-    | true =>
-      exfalso; apply hlz
-      simp only [Bool.and_eq_true, beq_iff_eq, List.any_eq_true, bne_iff_ne, ne_eq] at hb
-      exact hb
-  have hl : ¬ (ds.length > maxStrDigits) := by omega
-  have hemp : ds.isEmpty = false := by cases ds <;> simp_all
-  unfold pyNumber
-  split
-  all_goals first
-    | (exfalso; have h2 := hd _ (List.mem_cons_of_mem _ List.mem_cons_self); exact hx _ (by simp) h2)
-    | skip
-  simp only [digitPart_all isDig ds hdig, hemp, Bool.false_and, Bool.false_eq_true, ↓reduceIte,
-    Bool.false_or, Option.isSome_none, hany, hl, hh]
 
 end Fpy.Lit
